@@ -138,7 +138,7 @@ def r2(run):
                           if y[0] == "call" and y[1].fn.endswith(("AsyncWriteExt::write", "io::Write::write", "AsyncReadExt::read", "io::Read::read"))]
                     if io and all(len(x.args) > 1 for x in io):
                         cls, why = "io-count", "the slice bound is the byte count returned by %s on this buffer" % io[0].fn.split("::")[-1]
-            if cls is None and fn == HANDLE and b.kind == "Closure" and not b.is_coroutine and recv[0] == "arg":
+            if cls is None and (fn == HANDLE or fn.startswith("xs::api::handle_cas")) and b.kind == "Closure" and not b.is_coroutine and recv[0] == "arg":
                 # the map closure of the CAS ReaderStream
                 key = "xs::api::handle|cas-stream-map"
                 if key in PANIC_EXEMPT:
@@ -574,6 +574,13 @@ def r9(run):
         run.ob("xs::api|store-failures|mapped", True, "<api>", "store failures reach the client only through the error mapping of api::handle (R-C13-1)")
     # GET /cas/<hash>: only a NotFound I/O error is a 404, every other failure a 500
     hb = handle_body(run)
+    if hb is not None and not any(True for bb, si in hb.switches() if si["kind"] == "bool" and (lambda cm: cm and any(
+            y[0] == "call" and y[1].fn == "std::io::error::Error::kind" for s2 in (cm[1], cm[2]) for y in walk(s2)))(q.comparison(si["cond"]))):
+        # the CAS download arm extracted into its own handler (`handle_cas_get`): the test is looked for there
+        for b2 in run.facts.all_bodies():
+            if run.facts.enclosing_fn(b2).startswith("xs::api::handle_cas") and b2.is_coroutine and q.live_calls(b2, "std::io::error::Error::kind"):
+                hb = b2
+                run.touch(b2)
     if hb is not None:
         kinds = []
         for bb, si in hb.switches():
